@@ -1,6 +1,7 @@
 package main
 
 import (
+	"regexp"
 	"fmt"
 	"go/ast"
 	"go/constant"
@@ -203,6 +204,9 @@ type FuncVerifier struct {
 	curState       *State
 	localOnly      map[types.Object]bool
 	allocTerms     map[string]bool
+	epochAlloc     map[int]Term    // per heap epoch: the allocation set bounding what its field arrays reference
+	stores         map[string]storeInfo // field arrays built by writeField (by term): the array and cell stored into
+	dryRun         int // >0 while a loop body is executed only to summarise it (autoIterInvariant)
 }
 
 func (fv *FuncVerifier) note(format string, args ...any) {
@@ -474,17 +478,89 @@ var keyOwner = map[string]string{}
 func (fv *FuncVerifier) readField(st *State, ref Term, key string, fsort Sort) Term {
 	h := fv.heapGet(st, key, Sort(fmt.Sprintf("(Array Ref %s)", fsort)))
 	v := App(fsort, "select", h, ref)
-	if fsort == SRef && st.heapParams == nil && !strings.HasPrefix(key, "$") && !strings.Contains(v.S, "$") {
-		// the heap has no dangling references: what a pointer field holds is nil or allocated
-		al := fv.heapGet(st, "$ghost:alloc", "(Array Ref Bool)")
-		st.Assume(Or(App(SBool, "=", v, Null), App(SBool, "select", al, v)))
+	if fsort == SRef && st.heapParams == nil && !strings.HasPrefix(key, "$") {
+		if strings.Contains(v.S, "$") {
+			// a read under a binder (quantified clause): make the closedness of the underlying array available
+			fv.closedArray(st, h)
+		} else {
+			st.Assume(fv.closedRead(st, h, ref, v))
+		}
 	}
 	return v
 }
 
+var lazyHeapName = regexp.MustCompile(`^H_[A-Za-z0-9_]+@(\d+)$`)
+
+type storeInfo struct{ h, r Term }
+
+// closedRead: the heap has no dangling references: what a pointer field holds is nil or allocated. For a cell that
+// still has the content its field array had when the array's epoch began (function entry, or the return of a call
+// with unknown effects) it was allocated ALREADY THEN - "nothing that existed before points to an object allocated
+// later". A cell stored into since then only gets the weaker, current bound.
+func (fv *FuncVerifier) closedRead(st *State, h, ref, v Term) Term {
+	cur := fv.heapGet(st, "$ghost:alloc", "(Array Ref Bool)")
+	var stored []Term
+	base := h
+	for {
+		si, ok := fv.stores[base.S]
+		if !ok {
+			break
+		}
+		stored = append(stored, App(SBool, "=", ref, si.r))
+		base = si.h
+	}
+	b, ok := fv.lazyBound(base)
+	if !ok {
+		return Or(App(SBool, "=", v, Null), App(SBool, "select", cur, v))
+	}
+	// (an object allocated after the epoch began - e.g. the fresh result of a callee - has its fields modelled by the
+	// same array: only cells of objects that existed then carry the stronger bound)
+	stored = append(stored, Not(App(SBool, "select", b, ref)))
+	return Or(App(SBool, "=", v, Null), T(SBool, "(ite %s %s %s)", Or(stored...).S, App(SBool, "select", cur, v).S, App(SBool, "select", b, v).S))
+}
+
+func (fv *FuncVerifier) lazyBound(h Term) (Term, bool) {
+	if m := lazyHeapName.FindStringSubmatch(h.S); m != nil {
+		ver, _ := strconv.Atoi(m[1])
+		a, ok := fv.epochAlloc[ver]
+		return a, ok
+	}
+	return Term{}, false
+}
+
+// closedArray: the quantified form of closedRead for the epoch-start array underneath h.
+func (fv *FuncVerifier) closedArray(st *State, h Term) {
+	base := h
+	for {
+		si, ok := fv.stores[base.S]
+		if !ok {
+			break
+		}
+		base = si.h
+	}
+	b, ok := fv.lazyBound(base)
+	if !ok {
+		return
+	}
+	ax := T(SBool, "(forall ((cr$ Ref)) (! (=> (select %[2]s cr$) (or (= (select %[1]s cr$) null) (select %[2]s (select %[1]s cr$)))) :pattern ((select %[1]s cr$))))", base.S, b.S)
+	for _, t := range st.pc {
+		if t.S == ax.S {
+			return
+		}
+	}
+	st.Assume(ax)
+}
+
 func (fv *FuncVerifier) writeField(st *State, ref Term, key string, fsort Sort, v Term) {
 	h := fv.heapGet(st, key, Sort(fmt.Sprintf("(Array Ref %s)", fsort)))
-	st.heap[key] = App(h.Sort, "store", h, ref, v)
+	nh := App(h.Sort, "store", h, ref, v)
+	st.heap[key] = nh
+	if fsort == SRef && st.heapParams == nil && !strings.HasPrefix(key, "$") {
+		if fv.stores == nil {
+			fv.stores = map[string]storeInfo{}
+		}
+		fv.stores[nh.S] = storeInfo{h, ref}
+	}
 }
 
 // havocAll forgets every heap value (a call with unknown effects).
@@ -508,6 +584,7 @@ func (fv *FuncVerifier) havocAllExcept(st *State, keepPrefix string, except []st
 	}
 	st.heap = keep
 	fv.growAlloc(st)
+	fv.noteEpochAlloc(st)
 	for _, c := range st.stableCells {
 		if v, ok := old[c.key]; ok {
 			nh := fv.heapGet(st, c.key, v.Sort)
@@ -544,6 +621,20 @@ func (fv *FuncVerifier) growAlloc(st *State) {
 	st.Assume(T(SBool, "(forall ((r$ Ref)) (! (=> (select %s r$) (select %s r$)) :pattern ((select %s r$)) :pattern ((select %s r$))))", old.S, nw.S, old.S, nw.S))
 	st.Assume(Not(App(SBool, "select", nw, Null)))
 	st.heap["$ghost:alloc"] = nw
+}
+
+// noteEpochAlloc records the allocation set that bounds what the field arrays of the current epoch may reference
+// (recorded once, when the epoch begins: at the entry of the unit and right after every call with unknown effects).
+func (fv *FuncVerifier) noteEpochAlloc(st *State) {
+	if st.heapParams != nil {
+		return
+	}
+	if fv.epochAlloc == nil {
+		fv.epochAlloc = map[int]Term{}
+	}
+	if _, ok := fv.epochAlloc[st.epoch]; !ok {
+		fv.epochAlloc[st.epoch] = fv.heapGet(st, "$ghost:alloc", "(Array Ref Bool)")
+	}
 }
 
 // isLocalOnly: every use of the local variable v inside the function under verification is as the base of a
